@@ -113,7 +113,19 @@ fn qualmap_explore(ctx: &Ctx, thorough: bool, keys: Vec<&str>, vals: Vec<&str>, 
                 let own = |(k, v): (&purl::qualifiers::QualifierKey, &str)| (k.as_str().to_owned(), v.to_owned());
                 if q.iter().last().map(own) != want.last().cloned() { bad.push("iter().last()".into()); }
                 if q.iter().count() != n || q.iter().len() != n || q.iter().size_hint() != (n, Some(n)) { bad.push("count / len / size_hint".into()); }
-                for k in 0..=n { if q.iter().nth(k).map(own) != want.get(k).cloned() { bad.push(format!("nth({k})")); } }
+                for k in 0..=n + 1 {
+                    if q.iter().nth(k).map(own) != want.get(k).cloned() { bad.push(format!("nth({k})")); }
+                    if q.iter().nth_back(k).map(own) != want.iter().rev().nth(k).cloned() { bad.push(format!("nth_back({k})")); }
+                    if q.iter().rev().nth(k).map(own) != want.iter().rev().nth(k).cloned() { bad.push(format!("rev().nth({k})")); }
+                    if q.iter().skip(k).map(own).collect::<Vec<_>>() != want.iter().skip(k).cloned().collect::<Vec<_>>() { bad.push(format!("skip({k})")); }
+                    if q.iter().rev().skip(k).map(own).collect::<Vec<_>>() != want.iter().rev().skip(k).cloned().collect::<Vec<_>>() { bad.push(format!("rev().skip({k})")); }
+                    // an iterator asked for more than it has is exhausted afterwards
+                    let mut it = q.iter(); let _ = it.nth(k);
+                    let left = n.saturating_sub(k + 1);
+                    if it.len() != left || (left == 0 && it.next().is_some()) { bad.push(format!("after nth({k}): len {}", it.len())); }
+                    let mut it = q.iter(); let _ = it.nth_back(k);
+                    if it.len() != left { bad.push(format!("after nth_back({k}): len {}", it.len())); }
+                }
                 if q.iter().rev().last().map(own) != want.first().cloned() { bad.push("rev().last()".into()); }
                 if q.iter().min_by_key(|(k, _)| k.as_str().to_owned()).map(own) != want.first().cloned() { bad.push("min".into()); }
                 let mut it = q.iter(); let mut both: Vec<(String, String)> = vec![]; let mut back: Vec<(String, String)> = vec![];
@@ -455,7 +467,7 @@ pub fn suite_builder(ctx: &Ctx, thorough: bool) {
     ops.push(Op::RawQ("r", "")); ops.push(Op::RawQ("K", "raw")); ops.push(Op::RawClear("k"));
     ops.push(Op::Ns("a///b")); ops.push(Op::Sub("x////y/"));
     ops.push(Op::TRepo(" r\t")); ops.push(Op::Rebuild);
-    ops.push(Op::TCkOk); ops.push(Op::TCkBad); ops.push(Op::TCkColon); ops.push(Op::NoQ("\u{212A}")); ops.push(Op::Q("\u{212A}", "v"));
+    ops.push(Op::TCkOk); ops.push(Op::TCkBad); ops.push(Op::TCkColon); ops.push(Op::Q("checksum", "md5:+a+B")); ops.push(Op::Q("checksum", "\u{413}\u{41e}\u{421}\u{422}:00,\u{433}\u{43e}\u{441}\u{442}:11")); ops.push(Op::NoQ("\u{212A}")); ops.push(Op::Q("\u{212A}", "v"));
     ops.push(Op::RawIdx("checksum", "SHA256:AABB,md5:00FF")); ops.push(Op::RawIdx("Checksum", "sha256:xyz")); ops.push(Op::RawEntry("checksum", "B:00,a:11")); ops.push(Op::RawEntry("k", ""));
     let len = if thorough { 4 } else { 3 };
     let n = ops.len();
@@ -545,6 +557,10 @@ fn builder_one(ctx: &Ctx, seq: Vec<Op>) {
                 },
                 Op::TCkColon => {
                     let mut c = purl::qualifiers::well_known::Checksum::default(); c.insert_raw("SHA512:256", "AB".to_string());
+                    // the same label again in the other letter case (non-ASCII as well) replaces, it does not add
+                    c.insert_raw("\u{413}\u{41e}\u{421}\u{422}", "00".to_string()); c.insert_raw("\u{433}\u{43e}\u{441}\u{442}", "11".to_string()); c.insert_raw("\u{413}\u{41e}\u{421}\u{422}", "22".to_string());
+                    if c.iter().count() != 2 { ctx.violate("C09.typed", "the fallible typed setter stores a value that converts", json!(format!("{seq:?}")), format!("{} entries after re-inserting one label in both letter cases", c.iter().count()), "2".into()); }
+                    c.remove("\u{433}\u{43e}\u{441}\u{442}");
                     match guarded(|| cur.clone().try_with_typed_qualifier(Some(c))) {
                         Ok(Ok(nb)) => { m.q.insert("checksum".into(), "sha512:256:ab".into()); nb },
                         other => { ctx.violate("C09.typed", "the fallible typed setter stores a value that converts", json!(format!("{seq:?}")), format!("{:?}", other.map(|r| r.is_ok())), "Ok".into()); cur },
@@ -704,7 +720,7 @@ pub fn suite_checksum(ctx: &Ctx, thorough: bool) {
     // every short checksum TEXT (entries, separators, case, duplicates, prefixes) as the qualifier of a parsed PURL: if it is accepted
     // the stored text is the one canonical text, the typed accessor reads it back, and its text form is that text again
     {
-        let toks: [&str; 10] = ["a", "b", "A", "a-", ":", ",", "00", "1F", "f", "0"];
+        let toks: [&str; 11] = ["a", "b", "A", "a-", ":", ",", "00", "1F", "f", "0", "+1"];
         let depth = if thorough { 6 } else { 5 };
         let nt = toks.len();
         let total_t = (1..=depth).map(|l| nt.pow(l as u32)).sum::<usize>();
